@@ -222,15 +222,13 @@ func turnChunks(t Turn, k int, vec []int) []*schema.Message {
 // contains tool calls", skipping empty chunks at the front): when the turn calls tools, the first non-empty
 // chunk carries a tool call.
 func keepsContract(t Turn, vec []int) bool {
-	if len(t.Calls) == 0 || vec == nil {
+	if len(t.Calls) == 0 || vec == nil || !t.Content {
 		return true
 	}
-	for _, m := range turnChunks(t, 1, vec) {
-		if len(m.ToolCalls) > 0 {
+	// first non-empty chunk = the lower of the content slot and the first head slot
+	for i := range t.Calls {
+		if vec[1+2*i] <= vec[0] {
 			return true
-		}
-		if m.Content != "" {
-			return false
 		}
 	}
 	return false
